@@ -4,6 +4,10 @@
 
   Everything here is stated about ARBITRARY loop bodies that satisfy a small equational spec (`hbody`), so that the generated
   text only has to be shown to meet the spec by `simp` — nothing below mentions a generated sub-term.
+
+  The ORDER in which the translator lists the variables a loop carries is named in exactly two definitions, `enc2` and `st3`;
+  every lemma is stated over an arbitrary representation of the loop state (`enc` / `mk`), and the model-side state stays
+  `(want, out)` throughout.
 -/
 import AgpTpf.Model.PyRt
 import AgpTpf.Model.Fasta
@@ -35,6 +39,39 @@ theorem forIn_nextM {α σ ρ : Type} (g : σ → α → R σ) (xs : List α) (s
     | ok s' =>
       simp only [Except.map, bind, Except.bind]
       exact ih _ (fun y hy => h y (List.mem_cons_of_mem _ hy))
+
+/-! The same two facts when the loop carries the state in some other REPRESENTATION `τ` (`enc : σ → τ`): the lemmas below talk
+    about the state `(want, out)` of the model, the translator emits the carried variables in its own canonical order (sorted by
+    name), and the only place that order is written down is `enc2` / `st3` below. -/
+
+theorem forIn_next_enc {α σ τ ρ : Type} (enc : σ → τ) (g : σ → α → σ) (xs : List α) (s : σ) (body : α → τ → R (Ctl τ ρ))
+    (h : ∀ x ∈ xs, ∀ s, body x (enc s) = .ok (.next (enc (g s x)))) :
+    PyRt.forIn xs (enc s) body = .ok (.fell (enc (xs.foldl g s))) := by
+  induction xs generalizing s with
+  | nil => rfl
+  | cons x xs ih =>
+    simp only [PyRt.forIn, h x (List.mem_cons_self ..), List.foldl_cons]
+    exact ih _ (fun y hy => h y (List.mem_cons_of_mem _ hy))
+
+theorem forIn_nextM_enc {α σ τ ρ : Type} (enc : σ → τ) (g : σ → α → R σ) (xs : List α) (s : σ) (body : α → τ → R (Ctl τ ρ))
+    (h : ∀ x ∈ xs, ∀ s, body x (enc s) = (g s x).map (fun s' => .next (enc s'))) :
+    PyRt.forIn xs (enc s) body = (xs.foldlM g s).map (fun s' => .fell (enc s')) := by
+  induction xs generalizing s with
+  | nil => rfl
+  | cons x xs ih =>
+    simp only [PyRt.forIn, h x (List.mem_cons_self ..), List.foldlM_cons]
+    cases hg : g s x with
+    | error e => rfl
+    | ok s' =>
+      simp only [Except.map, bind, Except.bind]
+      exact ih _ (fun y hy => h y (List.mem_cons_of_mem _ hy))
+
+/-- how the translated `write_scaffold` carries `(want, out)` through its two `for` loops: the variables `sink_self_out`, `want`
+    in the translator's canonical order (sorted by name).  If that order changes again, change it HERE (and in `st3`). -/
+abbrev enc2 (s : Int × Bytes) : Bytes × Int := (s.2, s.1)
+
+/-- how the translated `while True` loop carries `want`, `chunk`, `out`: `chunk`, `sink_self_out`, `want`, sorted by name -/
+abbrev st3 (want : Int) (c : BytesIO) (out : Bytes) : BytesIO × Bytes × Int := (c, out, want)
 
 /-! ### the `while True: if seq := chunk.read(want): … else: break` loop -/
 
@@ -116,16 +153,16 @@ theorem writeChunk_spec (w : Int) (n : Nat) : ∀ (f : Nat) (want : Int) (chunk 
 /-- The read loop for one chunk.  `body` is any loop body that meets the equational spec `hbody` (read `want` bytes; nothing read:
     `break`; otherwise append them, decrease `want`, and at `want = 0` append LF and reset `want` to `w`).  For every fuel above the
     number of unread bytes the loop ends normally, in the state `writeChunk` computes. -/
-theorem whileLoop_read {ρ : Type} (w : Int)
-    (cond : Int × BytesIO × Bytes → R Bool) (body : Int × BytesIO × Bytes → R (Ctl (Int × BytesIO × Bytes) ρ))
-    (hcond : ∀ s, cond s = .ok true)
-    (hbody : ∀ want c out, body (want, c, out) =
-      if (c.read want).1.isEmpty then .ok (.brk (want, (c.read want).2, out))
-      else if want - ((c.read want).1.length : Int) = 0 then .ok (.next (w, (c.read want).2, out ++ (c.read want).1 ++ [10]))
-      else .ok (.next (want - ((c.read want).1.length : Int), (c.read want).2, out ++ (c.read want).1)))
+theorem whileLoop_read {τ ρ : Type} (mk : Int → BytesIO → Bytes → τ) (w : Int)
+    (cond : τ → R Bool) (body : τ → R (Ctl τ ρ))
+    (hcond : ∀ want c out, cond (mk want c out) = .ok true)
+    (hbody : ∀ want c out, body (mk want c out) =
+      if (c.read want).1.isEmpty then .ok (.brk (mk want (c.read want).2 out))
+      else if want - ((c.read want).1.length : Int) = 0 then .ok (.next (mk w (c.read want).2 (out ++ (c.read want).1 ++ [10])))
+      else .ok (.next (mk (want - ((c.read want).1.length : Int)) (c.read want).2 (out ++ (c.read want).1))))
     (n : Nat) : ∀ (fuel : Nat) (want : Int) (c : BytesIO) (out : Bytes), (rest c).length ≤ n → n < fuel →
-      ∃ c', whileLoop fuel (want, c, out) cond body =
-        .ok (.fell ((writeChunk w (n + 1) want (rest c)).2, c', out ++ (writeChunk w (n + 1) want (rest c)).1)) := by
+      ∃ c', whileLoop fuel (mk want c out) cond body =
+        .ok (.fell (mk (writeChunk w (n + 1) want (rest c)).2 c' (out ++ (writeChunk w (n + 1) want (rest c)).1))) := by
   induction n with
   | zero =>
     intro fuel want c out hl hf
@@ -170,18 +207,18 @@ def chunkStep (w : Int) (s : Int × Bytes) (c : BytesIO) : Int × Bytes :=
 
 /-- `chunk.seek(0)` + the read loop + the hand-over of `(want, out)` to the enclosing `for`: for any loop body meeting the spec of
     `whileLoop_read`, any continuation `k` that forwards `(want, out)`, and any fuel above the chunk length. -/
-theorem chunk_body {ρ : Type} (w : Int) (fuel : Nat)
-    (cond : Int × BytesIO × Bytes → R Bool) (body : Int × BytesIO × Bytes → R (Ctl (Int × BytesIO × Bytes) ρ))
-    (k : Done (Int × BytesIO × Bytes) ρ → R (Ctl (Int × Bytes) ρ))
-    (hcond : ∀ s, cond s = .ok true)
-    (hbody : ∀ want c out, body (want, c, out) =
-      if (c.read want).1.isEmpty then .ok (.brk (want, (c.read want).2, out))
-      else if want - ((c.read want).1.length : Int) = 0 then .ok (.next (w, (c.read want).2, out ++ (c.read want).1 ++ [10]))
-      else .ok (.next (want - ((c.read want).1.length : Int), (c.read want).2, out ++ (c.read want).1)))
-    (hk : ∀ want c out, k (.fell (want, c, out)) = .ok (.next (want, out)))
+theorem chunk_body {τ₃ τ₂ ρ : Type} (mk : Int → BytesIO → Bytes → τ₃) (enc : Int × Bytes → τ₂) (w : Int) (fuel : Nat)
+    (cond : τ₃ → R Bool) (body : τ₃ → R (Ctl τ₃ ρ))
+    (k : Done τ₃ ρ → R (Ctl τ₂ ρ))
+    (hcond : ∀ want c out, cond (mk want c out) = .ok true)
+    (hbody : ∀ want c out, body (mk want c out) =
+      if (c.read want).1.isEmpty then .ok (.brk (mk want (c.read want).2 out))
+      else if want - ((c.read want).1.length : Int) = 0 then .ok (.next (mk w (c.read want).2 (out ++ (c.read want).1 ++ [10])))
+      else .ok (.next (mk (want - ((c.read want).1.length : Int)) (c.read want).2 (out ++ (c.read want).1))))
+    (hk : ∀ want c out, k (.fell (mk want c out)) = .ok (.next (enc (want, out))))
     (c : BytesIO) (hc : c.data.length < fuel) (want : Int) (out : Bytes) :
-    (whileLoop fuel (want, c.seek 0, out) cond body >>= k) = .ok (.next (chunkStep w (want, out) c)) := by
-  obtain ⟨c', hc'⟩ := whileLoop_read w cond body hcond hbody c.data.length fuel want (c.seek 0) out
+    (whileLoop fuel (mk want (c.seek 0) out) cond body >>= k) = .ok (.next (enc (chunkStep w (want, out) c))) := by
+  obtain ⟨c', hc'⟩ := whileLoop_read mk w cond body hcond hbody c.data.length fuel want (c.seek 0) out
     (by rw [rest_seek0]; exact Nat.le_refl _) hc
   rw [hc', rest_seek0]
   simp only [bind, Except.bind, hk, chunkStep]
